@@ -191,20 +191,20 @@ EXTRA = {
     "C05": " C05_crowd_monotone (Proofs/Product.v, Proofs/ConnPair.v: beside any other connection of the process the state of a connection still only moves forward); crowd_probe (9 and more connections starting at once) and stale_awaitable_probe test that the code shares nothing between connections and evaluates its guards when a phase runs.",
     "C07": " For sessions side by side: C07_sibling_sessions_independent, C07_sibling_never_blocks, C07_sibling_true_only_if_initiated_here (in the interleaving product of two connection machines each stop callback reports a graceful disconnect only if one was initiated on THAT connection); siblings_probe and foreign_loop_probe on the implementation. stop_callback_chain_probe: three consecutive sessions whose first slow stop callback returns / raises / is cancelled.",
     "C08": " Overlapping disconnect() calls and a client re-connected during a graceful disconnect are explored on the implementation only (the model has one disconnect task). pause_inside_write_probe: pause_writing() from inside transport.write() while a request is written.",
-    "C09": " Other-platform branches: every module-level flag computed from sys.platform flipped x debug logging x message size, and the same probe with the library imported as on win32 in a child interpreter (vlib/otherplatform.py). slow_stop_hook_probe: client.disconnect() is bounded whatever the application's stop callback does.",
-    "C10": " C10_neighbour_sessions_independent, C10_neighbour_all_runs (two keep-alive schedules side by side: each one's pings and death are those of its own run); every seventh schedule runs beside another live session with the same K established a fraction of K earlier.",
+    "C09": " Other-platform branches: every module-level flag computed from sys.platform flipped x debug logging x message size, and the same probe with the library imported as on win32 in a child interpreter (vlib/otherplatform.py). slow_stop_hook_probe: client.disconnect() is bounded whatever the application's stop callback does. endless_parts_probe (a multi-message answer that never ends is cut off at the call's time-out).",
+    "C10": " C10_neighbour_sessions_independent, C10_neighbour_all_runs (two keep-alive schedules side by side: each one's pings and death are those of its own run); every seventh schedule runs beside another live session with the same K established a fraction of K earlier. Every sixth schedule runs with a request/response call in flight throughout.",
     "C11": " deadline_probe: unanswered calls fail exactly at their timeout, on this platform and with the library imported as on win32. one_shot_subscriber_probe: a self-removing subscriber of the response type, and a call started inside a callback for its own response type.",
-    "C12": " C12_neighbour_sessions_independent (+ example: A's refused write, then B answers its ping with exactly one PingResponse); recycled_buffer_probe (reads in a refilled bytearray / pool memoryview, stream cut at every byte) and neighbour_answer_probe on the implementation.",
+    "C12": " C12_neighbour_sessions_independent (+ example: A's refused write, then B answers its ping with exactly one PingResponse); recycled_buffer_probe (reads in a refilled bytearray / pool memoryview, stream cut at every byte) and neighbour_answer_probe on the implementation. multi_type_subscription_probe (one subscriber on several types registered at once, another on one of them).",
     "C03": " Peer requests (PingRequest, GetTimeRequest) encrypted right behind the handshake frame; reads handed over in recycled buffers; the expected name configured before / between the connect phases through APIClient.",
     "C06": " client_attempts_case with the expected name configured in the constructor / before / between the phases; overlapping_finish_case (two overlapping finish_connection() calls against a refused device, under the real transport contract).",
     "C13": " The API sweep exercises every subscription (one message per registered class, boolean fields set and plain), with asynchronous and synchronous callbacks that raise, and every awaitable entry point against a silent device (time-out and cancellation paths).",
     "C14": " Every converted model is compared before and after the caller modifies / clears its wire message; unknown enum numbers are set deterministically in every enum field, nested elements included.",
-    "C15": " Refused values (a value the wire field cannot hold while all other arguments are fine) must raise and write nothing; commands issued from a state callback in reads that end inside the next frame are on the wire when the call returns.",
-    "C16": " refused_operation_probe, self_unsubscribe_probe, raising_state_callback_probe.",
-    "C17": " mutating_subscriber_probe (a subscriber that modifies the models it receives, a second client listening), foreign_loop_va_probe.",
-    "C18": " name assigned after construction, app_disconnect_probe (real APIClient + ReconnectLogic, the application disconnects a managed session), raising_on_connect_probe.",
-    "C20": " C20_failed_creation_changes_nothing (a host on which the mDNS engine cannot be created is part of the manager model and of the enumerated histories); overlapping_resolves_probe, stop_during_attempt_probe, manager_overlap_probe.",
-    "C19": " C19_two_clients_independent, C19_never_wedged_beside_another_client (product of two client machines); fault_forms_probe (session deaths by non-OSError exceptions and write refusals by RuntimeError, with and without a call in flight).",
+    "C15": " Refused values (a value the wire field cannot hold while all other arguments are fine) must raise and write nothing; commands issued from a state callback in reads that end inside the next frame are on the wire when the call returns. Positional calls in the parameter order published at the pinned commit (vlib/public_signatures.json) must write what the keyword call writes.",
+    "C16": " refused_operation_probe, self_unsubscribe_probe, raising_state_callback_probe. double_unsubscribe_probe.",
+    "C17": " mutating_subscriber_probe (a subscriber that modifies the models it receives, a second client listening), foreign_loop_va_probe. repeated_subscription_probe (subscribe_logs again with the same handler).",
+    "C18": " name assigned after construction, app_disconnect_probe (real APIClient + ReconnectLogic, the application disconnects a managed session), raising_on_connect_probe. stop_start_stop_probe.",
+    "C20": " C20_failed_creation_changes_nothing (a host on which the mDNS engine cannot be created is part of the manager model and of the enumerated histories); overlapping_resolves_probe, stop_during_attempt_probe, manager_overlap_probe. One name configured in two address forms with differing OS answers.",
+    "C19": " C19_two_clients_independent, C19_never_wedged_beside_another_client (product of two client machines); fault_forms_probe (session deaths by non-OSError exceptions and write refusals by RuntimeError, with and without a call in flight). no_session_sweep also while the second connect phase waits for the device.",
 }
 
 
